@@ -791,3 +791,87 @@ pub fn sched_point(name: &str) {
         IN_SCHED_HOOK.with(|f| f.set(false));
     }
 }
+
+// ---- byte-level wrappers used by the Kani harnesses (Engine A)
+
+/// `BinarySeparable::find_shortest_separator` for byte strings.
+pub fn bytes_separator(a: &[u8], b: &[u8]) -> Vec<u8> {
+    BinarySeparable::find_shortest_separator(a, b)
+}
+
+/// `BinarySeparable::find_shortest_successor` for byte strings.
+pub fn bytes_successor(a: &[u8]) -> Vec<u8> {
+    BinarySeparable::find_shortest_successor(a)
+}
+
+/// `BinarySeparable::find_shortest_successor` for internal keys; returns (user key, sequence).
+pub fn ikey_successor(a: (&[u8], u64, bool)) -> (Vec<u8>, u64) {
+    let ka = InternalKey::new(a.0.to_vec(), a.1, op(a.2));
+    let succ = BinarySeparable::find_shortest_successor(&ka);
+    let k = InternalKey::try_from(succ).unwrap();
+    (k.get_user_key().to_vec(), k.get_sequence_number())
+}
+
+/// CRC masking helpers.
+pub fn crc_mask(x: u32) -> u32 {
+    crate::utils::crc::mask_checksum(x)
+}
+/// CRC unmasking helper.
+pub fn crc_unmask(x: u32) -> u32 {
+    crate::utils::crc::unmask_checksum(x)
+}
+
+/// Parsers fed with arbitrary bytes: each returns whether parsing succeeded (it must never panic).
+pub fn parse_block_record(buf: &Vec<u8>) -> bool {
+    crate::logs::BlockRecord::try_from(buf).is_ok()
+}
+/// See [`parse_block_record`].
+pub fn parse_footer(buf: &Vec<u8>) -> bool {
+    crate::tables::verif_access::Footer::try_from(buf).is_ok()
+}
+/// See [`parse_block_record`].
+pub fn parse_block_handle(buf: &[u8]) -> bool {
+    crate::tables::verif_access::BlockHandle::try_from(buf).is_ok()
+}
+/// See [`parse_block_record`].
+pub fn parse_internal_key(buf: Vec<u8>) -> bool {
+    InternalKey::try_from(buf).is_ok()
+}
+/// See [`parse_block_record`].
+pub fn parse_batch(buf: &[u8]) -> bool {
+    crate::Batch::try_from(buf).is_ok()
+}
+/// See [`parse_block_record`].
+pub fn parse_manifest(buf: &[u8]) -> bool {
+    VersionChangeManifest::try_from(buf).is_ok()
+}
+
+/// Internal key byte encoding round trip: (user key, seq, is_put) -> bytes -> parsed triple.
+pub fn ikey_roundtrip(k: (&[u8], u64, bool)) -> Option<(Vec<u8>, u64, bool)> {
+    let key = InternalKey::new(k.0.to_vec(), k.1, op(k.2));
+    let bytes: Vec<u8> = Vec::from(&key);
+    InternalKey::try_from(bytes)
+        .ok()
+        .map(|p| (p.get_user_key().to_vec(), p.get_sequence_number(), p.get_operation() == Operation::Put))
+}
+
+/// Filter block builder/reader pair with the given policy: `blocks` = (block offset, keys of the block) in file order.
+/// Returns, for every key of every block, what the reader answers when asked with that block's offset.
+pub fn filter_block_answers(policy: Arc<dyn crate::FilterPolicy>, blocks: &[(usize, Vec<Vec<u8>>)]) -> Option<Vec<bool>> {
+    let mut b = crate::tables::verif_access::FilterBlockBuilder::new(Arc::clone(&policy));
+    for (offset, keys) in blocks {
+        b.notify_new_data_block(*offset);
+        for k in keys {
+            b.add_key(k.clone());
+        }
+    }
+    let bytes = b.finalize();
+    let r = crate::tables::verif_access::FilterBlockReader::new(policy, bytes).ok()?;
+    let mut out = vec![];
+    for (offset, keys) in blocks {
+        for k in keys {
+            out.push(r.key_may_match(*offset as u64, k));
+        }
+    }
+    Some(out)
+}
